@@ -48,6 +48,7 @@ type Outcome struct {
 	Asserts   map[string]int    `json:"asserts,omitempty"` // label -> times checked
 	Unknowns  int               `json:"unknowns,omitempty"`
 	SymAssert int               `json:"sym_asserts"`       // assertion queries that went to the solver
+	SymVars   int               `json:"sym_vars"`
 	Stubs     map[string]int    `json:"-"`
 	Funcs     map[string]int    `json:"-"`
 	Choices   string            `json:"choices,omitempty"`
